@@ -1782,3 +1782,50 @@ var ruleWalkChildList = &Rule{
 		return obs
 	},
 }
+
+// ---------------------------------------------------------------------------------------------
+// NUM/range-not-syntax: a numeral that overflows is not a malformed numeral
+
+var ruleNumRange = &Rule{
+	Name:    "NUM/range-not-syntax",
+	NeedSSA: true,
+	Text:    "strconv.ParseFloat answers a well-formed numeral that does not fit a double with an error too (ErrRange, and ±Inf / 0 as the value). In the parser's numeral conversion every function whose boolean `is a number` result depends on the error of strconv.ParseFloat also reads strconv.ErrRange — otherwise valid Lua such as `1e999` is reported as a syntax error (well-formed programs produce no syntax diagnostics)",
+	Run: func(c *Ctx) []Ob {
+		var obs []Ob
+		n := 0
+		for _, f := range c.ModFns() {
+			if f.Pkg == nil || f.Pkg.Pkg.Path() != modPath+"/langserver/check/compiler/parser" {
+				continue
+			}
+			var site token.Pos
+			readsRange := false
+			for _, b := range f.Blocks {
+				for _, ins := range b.Instrs {
+					if call, ok := ins.(*ssa.Call); ok {
+						if g := call.Call.StaticCallee(); g != nil && g.Pkg != nil && g.Pkg.Pkg.Path() == "strconv" && g.Name() == "ParseFloat" {
+							site = call.Pos()
+						}
+					}
+					for _, op := range ins.Operands(nil) {
+						if gl, ok := (*op).(*ssa.Global); ok && gl.Pkg != nil && gl.Pkg.Pkg.Path() == "strconv" && gl.Name() == "ErrRange" {
+							readsRange = true
+						}
+					}
+				}
+			}
+			if site == token.NoPos {
+				continue
+			}
+			n++
+			key := "NUM/range-not-syntax:" + f.Name()
+			if readsRange {
+				obs = append(obs, Ob{Key: key, Site: c.Pos(site), Verdict: OK, Note: "a range error is told from a syntax error"})
+			} else {
+				obs = append(obs, Ob{Key: key, Site: c.Pos(site), Verdict: VIOLATION,
+					Note: f.Name() + " decides `is a number` from the error of strconv.ParseFloat without looking at strconv.ErrRange: a well-formed numeral outside the range of a double (1e999) is reported as malformed"})
+			}
+		}
+		obs = append(obs, floor("NUM/range-not-syntax", "numeral conversions through strconv.ParseFloat in the parser", n, 1))
+		return obs
+	},
+}
